@@ -1062,3 +1062,100 @@ package moss
 //@   modifies heap(Footer.SegmentLocs), ioFailed, unsynced
 //@ func (ss *segmentStack) ensureFullySorted()
 //@   trusted deferred-sort ticket protocol abstracted: the segments under contract are sorted already
+
+// ---- the collection's lock (C03, C16, C01, C13) ------------------------------------------------------------
+
+// Set when the collection is built, never reassigned.
+//@ immutable collection.options, collection.stats, collection.stopCh, collection.pingMergerCh, collection.doneMergerCh, collection.donePersisterCh, collection.incarNum, CollectionOptions.MaxPreMergerBatches, CollectionOptions.DeferredSort, CollectionOptions.ReadOnly, CollectionOptions.CachePersisted, CollectionOptions.MergeOperator
+//@ guarded collection.m: waitDirtyIncomingCh, waitDirtyOutgoingCh, latestSnapshot, highestIncarNum, stackDirtyTop, stackDirtyMid, stackDirtyBase, stackClean, lowerLevelSnapshot, childCollections
+
+//@ pure func maxPre(m *collection) int = ite(m.options.MaxPreMergerBatches > 0, m.options.MaxPreMergerBatches, DefaultCollectionOptions.MaxPreMergerBatches)
+//@ pure func secOK(ss *segmentStack) bool = ss == nil || stackOK(ss)
+
+// Invariant of the collection's mutex: whenever the lock is free,
+//   bound          at most MaxPreMergerBatches batches wait in the top section (C16)
+//   closedNoCache  a closed collection has no cached snapshot to hand out (C16)
+//   sections       every section is a well-formed stack of sorted segments
+//@ lock-invariant collection.m: @bound self.stackDirtyTop == nil || len(self.stackDirtyTop.a) <= maxPre(self)
+//@ lock-invariant collection.m: @closedNoCache closed(self.stopCh) ==> self.latestSnapshot == nil
+//@ lock-invariant collection.m: @sections secOK(self.stackDirtyTop) && secOK(self.stackDirtyMid) && secOK(self.stackDirtyBase) && secOK(self.stackClean)
+
+//@ func (m *collection) isClosed() bool
+//@   trusted the select-on-closed-channel idiom: true exactly when stopCh has been closed
+//@   ensures result == closed(m.stopCh)
+
+// User callbacks are assumed not to re-enter the collection.
+//@ func CollectionOptions.OnEvent
+//@   ensures true
+//@ func CollectionOptions.OnError
+//@   ensures true
+//@ func CollectionOptions.Log
+//@   ensures true
+
+//@ func (a *segment) doSort()
+//@   trusted sort.Sort over the verified Less/Swap of the segment: the entries are permuted into ascending key order
+//@   modifies elems(a.kvs)
+//@   ensures segSorted(a)
+//@ func (b *batch) doSort()
+//@   trusted sorts the batch's segment and, recursively, its child batches (see segment.doSort)
+//@   modifies elems(b.segment.kvs)
+//@   ensures b != deletedChildBatchMarker ==> (old(segValid(b.segment)) ==> segValid(b.segment)) && segSorted(b.segment)
+
+//@ func (ss *segmentStack) Close() error
+//@   props C15
+//@   modifies ss.refs, ss.lowerLevelSnapshot, heap(SnapshotWrapper.refCount), heap(SnapshotWrapper.ss), heap(SnapshotWrapper.closer), heap(CollectionStats.TotSnapshotInternalClose)
+//@   ensures ss != nil ==> ss.refs == old(ss.refs) - 1
+
+// rv.a == cur.a ++ [b.segment] (the latter only when the batch has operations at this level)
+//@ pure func pushedOn(rv *segmentStack, cur *segmentStack, b *batch) bool = rv != nil &&
+//@     len(rv.a) == ite(cur != nil, len(cur.a), 0) + ite(b != nil && segLen(b.segment) > 0, 1, 0) &&
+//@     (cur != nil ==> (forall i int :: 0 <= i && i < len(cur.a) ==> segIfc(rv, i) == segIfc(cur, i))) &&
+//@     (b != nil && segLen(b.segment) > 0 ==> segIfc(rv, ite(cur != nil, len(cur.a), 0)) == ifaceOf(b.segment))
+
+//@ func (m *collection) buildStackDirtyTop(b *batch, curStackTop *segmentStack) (rv *segmentStack)
+//@   props C03 C01 C02 C11
+//@   attr obligations ensures inv-entry inv-preserve P0 call-requires
+//@   attr only-labels fresh pushed ok
+//@   requires m != nil && secOK(curStackTop) && (b != nil ==> b.segment != nil && segOK(b.segment))
+//@   modifies heap(collection.childCollections), heap(collection.highestIncarNum)
+//@   ensures @fresh rv != nil && fresh(rv) && fresh(arr(rv.a))
+//@   ensures @pushed pushedOn(rv, curStackTop, b)
+//@   ensures @ok stackOK(rv)
+//@   loop 1: modifies rv.childSegStacks, heap(collection.childCollections), heap(collection.highestIncarNum)
+//@   loop 1: invariant rv != nil && fresh(rv) && fresh(arr(rv.a))
+//@   loop 1: invariant pushedOn(rv, curStackTop, b)
+//@   loop 1: invariant stackOK(rv)
+//@   loop 2: modifies rv.childSegStacks, heap(collection.childCollections), heap(collection.highestIncarNum)
+//@   loop 2: invariant rv != nil && fresh(rv) && fresh(arr(rv.a))
+//@   loop 2: invariant pushedOn(rv, curStackTop, b)
+//@   loop 2: invariant stackOK(rv)
+
+// ExecuteBatch: one critical section installs the whole batch (its segment on
+// top of the top section, child segments in the child stacks of the same new
+// stack) and drops the cached snapshot; the back-pressure bound is kept; a
+// closed collection refuses non-empty batches.
+//@ func (m *collection) ExecuteBatch(bIn Batch, writeOptions WriteOptions) error
+//@   props C03 C16 C01
+//@   attr obligations lock-inv region guarded lock ensures inv-entry inv-preserve
+//@   requires m != nil && m.options != nil && !m.options.DeferredSort && !held(m.m) && m.stats != nil && DefaultCollectionOptions.MaxPreMergerBatches >= 1
+//@   requires typeIs(bIn, "*batch") && ptrOf(bIn, "*batch") != nil ==> ptrOf(bIn, "*batch").segment != nil && segValid(ptrOf(bIn, "*batch").segment) && ptrOf(bIn, "*batch").segment.index == nil && ptrOf(bIn, "*batch") != deletedChildBatchMarker
+//@   modifies *
+//@   ensures @unlocked !held(m.m)
+//@   ensures @closedFinal old(closed(m.stopCh)) && typeIs(bIn, "*batch") && ptrOf(bIn, "*batch") != nil && segLen(ptrOf(bIn, "*batch").segment) > 0 ==> result == ErrClosed
+//@   unlock 4: @whole pushedOn(m.stackDirtyTop, atAcquire(m.stackDirtyTop), b)
+//@   unlock 4: @cacheDropped m.latestSnapshot == nil
+//@   unlock 4: @othersKept m.stackDirtyMid == atAcquire(m.stackDirtyMid) && m.stackDirtyBase == atAcquire(m.stackDirtyBase) && m.stackClean == atAcquire(m.stackClean) && m.lowerLevelSnapshot == atAcquire(m.lowerLevelSnapshot)
+//@   unlock 1: @nothingInstalled m.stackDirtyTop == atAcquire(m.stackDirtyTop) && m.latestSnapshot == atAcquire(m.latestSnapshot)
+//@   unlock 3: @nothingInstalled m.stackDirtyTop == atAcquire(m.stackDirtyTop) && m.latestSnapshot == atAcquire(m.latestSnapshot)
+//@   loop 1: modifies m.waitDirtyIncomingCh, m.waitDirtyOutgoingCh, m.latestSnapshot, m.highestIncarNum, m.stackDirtyTop, m.stackDirtyMid, m.stackDirtyBase, m.stackClean, m.lowerLevelSnapshot, m.childCollections, heap(CollectionStats.TotExecuteBatchWaitBeg), heap(CollectionStats.TotExecuteBatchWaitEnd)
+//@   loop 1: invariant held(m.m) && lockInv(m.m) && segOK(b.segment)
+
+//@ func (m *collection) invalidateLatestSnapshotLOCKED()
+//@   props C01 C03 C16
+//@   requires m != nil && held(m.m)
+//@   modifies m.latestSnapshot, heap(segmentStack.refs), heap(segmentStack.lowerLevelSnapshot), heap(SnapshotWrapper.refCount), heap(SnapshotWrapper.ss), heap(SnapshotWrapper.closer), heap(CollectionStats.TotSnapshotInternalClose), heap(Footer.refs)
+//@   ensures m.latestSnapshot == nil
+
+//@ func Snapshot.Close
+//@   modifies heap(segmentStack.refs), heap(segmentStack.lowerLevelSnapshot), heap(SnapshotWrapper.refCount), heap(SnapshotWrapper.ss), heap(SnapshotWrapper.closer), heap(CollectionStats.TotSnapshotInternalClose), heap(Footer.refs)
+//@   ensures true
